@@ -13,7 +13,7 @@ import numpy as np
 from dagrt.codegen.analysis import verify_code
 from dagrt.language import DAGCode, ExecutionPhase
 from dagrt.transform import fuse_two_dags
-from dagrt.utils import is_state_variable
+from simdag.engines.names import is_state_variable      # the model's own classification, not dagrt's
 
 from simdag.core.outcome import Discard, Violation
 from simdag.engines.sched import Exec, _sv, ancestors, random_extension
@@ -42,6 +42,7 @@ META = {"C16": {
                     "variable the other writes; no step-ending statements in the executed variant"],
     "probes": ["temp_clash", "loop_counter_clash", "flag_clash", "id_clash", "predicate_custom",
                "disagree_initial", "disagree_transition", "interleaved", "handwritten_ids", "fusion_of_a_fusion",
+               "phase_record_name_differs_from_key", "methods_with_implicit_solves",
                "earlier_fusion_of_same_objects"],
 }}
 
@@ -155,15 +156,25 @@ def run_c16(ctx):
                 state_num=["<state>y", "<state>ya"], state_int=["<state>n"], state_arr=["<state>a"])
     cfgB = dict(phase_names=names, next=nxt, no_advance=True, shared_ro=shared,
                 state_num=["<state>z", "<state>zb"], state_int=["<state>m"], state_arr=["<state>b"])
+    if tape.chance(0.4, "attr_names"):
+        # temporaries spelled like the attributes that expressions look up (x.real, x.imag)
+        cfgA["extra_temps"] = ["real", "imag", "real"]
+        cfgB["extra_temps"] = ["real", "imag", "real"]
+        ctx.count("probe:temporaries_named_like_attributes")
     forbid_b = forbid
     if tape.chance(0.3, "b_uses_counter_names"):
         # the second method has no loops and uses i / j as ordinary temporaries, while the first method
         # uses them as loop counters: they must be kept apart like any other per-step name
-        cfgB["extra_temps"] = ["i", "j", "i", "j"]
+        cfgB["extra_temps"] = ["i", "j", "i", "j"] + list(cfgB.get("extra_temps", []))
         forbid_b = forbid + ("loops", "arrays", "var_bounds")
         ctx.count("probe:counter_name_as_temporary")
-    scA = ScriptGen(tape, max_ops=6, max_depth=2, persistent_p=False, forbid=forbid, cfg=cfgA).gen()
-    scB = ScriptGen(tape, max_ops=6, max_depth=2, persistent_p=False, forbid=forbid_b, cfg=cfgB).gen()
+    with tape.span("implicit"):
+        implicit = tape.chance(0.3, "implicit")     # implicit solves (executed by the simulated solver of C02)
+    if implicit:
+        ctx.count("probe:methods_with_implicit_solves")
+    scA = ScriptGen(tape, max_ops=6, max_depth=2, persistent_p=False, forbid=forbid, cfg=cfgA, implicit=implicit).gen()
+    scB = ScriptGen(tape, max_ops=6, max_depth=2, persistent_p=False, forbid=forbid_b, cfg=cfgB,
+                    implicit=implicit).gen()
     try:
         apA, apB = apply_script(scA), apply_script(scB)
     except Exception:
@@ -191,7 +202,11 @@ def run_c16(ctx):
         for tag, dag in (("onlyA", dagA), ("onlyB", dagB)):
             if tape.chance(0.2, "only"):
                 src = dag.phases[names[0]]
-                only[tag] = ExecutionPhase(tag, names[0], list(src.statements))
+                # (the key in the phase table is what counts; the record's own name may differ from it)
+                rec_name = [tag, tag, "x_" + tag, names[0]][tape.draw(4, "only_recname")]
+                if rec_name != tag:
+                    ctx.count("probe:phase_record_name_differs_from_key")
+                only[tag] = ExecutionPhase(rec_name, names[0], list(src.statements))
                 ctx.count("probe:phase_in_one_method_only")
     if "onlyA" in only:
         dagA = DAGCode(dict(dagA.phases, onlyA=only["onlyA"]), dagA.initial_phase)
